@@ -389,6 +389,8 @@ func init() {
 			{IncludeNames: []string{names[0], names[0], " " + names[1]}}, {Regex: ".", IncludeNames: []string{names[3]}},
 			{Regex: ".", ExcludeNames: []string{"nosuch"}}, {IncludeNames: []string{"nosuch", "alsonot"}, ExcludeNames: []string{"third"}},
 			{IncludeSources: []string{"CABF_BR"}, ExcludeSources: []string{"CABF_BR"}}}
+		// options that are not empty and yet select every lint
+		specs = append(specs, FilterSpec{Regex: "^[enw]_"}, FilterSpec{Regex: "."}, FilterSpec{ExcludeSources: []string{"Unknown"}}, FilterSpec{IncludeSources: srcs}, FilterSpec{IncludeNames: names})
 		// anchored literals: a name that is a fragment of longer names, and a fragment that is no name at all
 		{
 			k := 0
@@ -458,6 +460,9 @@ func init() {
 			if class == "panic" {
 				out.Violate("C08|filter-panics", "Filter panicked: "+errText, f, nil, nil)
 			}
+			if class == "same" && !f.opts().Empty() {
+				out.Violate("C08|filtered-is-source", "Filter with options that are not empty returned the registry that was filtered, not a new one: configuring or extending either handle changes the other", f, "a new registry", "the source registry itself")
+			}
 			if class == "other-error" {
 				out.Violate("C08|filter-undocumented-error", "Filter rejects an option set with an error that is neither 'unknown lint name' nor the name-pattern exclusivity error: "+errText, f, "a registry or a documented error", errText)
 			}
@@ -487,6 +492,19 @@ func init() {
 				for _, l := range fr.OcspResponseLints().Lints() {
 					if g.OcspResponseLints().ByName(l.Name) != l {
 						out.Violate("C08|lint-value:"+l.Name, "filtered registry holds a different OCSP lint value", f, nil, nil)
+					}
+				}
+				// a new registry: configuring it must leave the source registry's configuration alone (options that happen
+				// to select every lint included)
+				if !f.opts().Empty() {
+					before := g.GetConfiguration()
+					if probe, err := lint.NewConfigFromString("[e_rsa_fermat_factorization]\nRounds = 3\n"); err == nil {
+						fr.SetConfiguration(probe)
+						if g.GetConfiguration() != before {
+							out.Violate("C08|filtered-is-source", fmt.Sprintf("configuring the registry returned by Filter changed the configuration of the registry that was filtered (the options select %d of %d lints)", len(fr.Names()), len(names)), f, "an independent registry", "the source registry itself")
+							g.SetConfiguration(before)
+						}
+						fr.SetConfiguration(before)
 					}
 				}
 				if fr.GetConfiguration() != g.GetConfiguration() {
